@@ -31,7 +31,7 @@ def case_(draw, tier):
             "rec": draw(gens.pair(N, rel_kinds=["indep", "partial", "delay", "delay", "gain", "gain", "same", "yzero"]) if mode == "csd" else gens.record(N)),
             "how": draw(st.sampled_from(["full", "full", "single"]))}
     if case["how"] == "single":
-        case["L"] = draw(st.integers(1, N))
+        case["L"] = draw(st.one_of(st.integers(1, N), st.integers(1, 6)))
         case["fbin"] = draw(st.floats(0.0, 0.5))
     return case
 
